@@ -130,9 +130,30 @@ class E8:
         args = [self.ev(a, env, fname) for a in call_args(n)]
         if nm in mf:
             return mf[nm](*args)
+        if nm in self.funcs and self._status_helper(nm):
+            return _sp().Integer(0)
         if nm in self.funcs:
             return self.call(nm, args)
         raise NotSummarisable('call of %s in %s' % (nm, fname))
+
+    def _status_helper(self, nm):
+        """a file-local function that does not exist in the reference tree, returns an int and returns nothing but integer
+        literals, the last one 0: validity checks split off into a status function. The summaries describe valid input (the
+        checks written in place are skipped on the same assumption), so its value is 0."""
+        from .. import normal
+        f = self.funcs[nm]
+        if f.get('storageClass') != 'static' or not (f.get('type') or {}).get('qualType', '').startswith('int '):
+            return False
+        cf = cfront.basename(f.get('_locfile') or f.get('_file') or '')
+        ref = normal.reference_names(cf) if cf else None
+        if not ref or nm in ref:
+            return False
+        rets = [x for x in cfront.walk(cfront.body(f)) if x.get('kind') == 'ReturnStmt']
+        if not rets or not all(x.get('inner') and strip(x['inner'][0], casts=True).get('kind') == 'IntegerLiteral' for x in rets):
+            return False
+        top = cfront.body(f).get('inner', [])
+        return bool(top) and top[-1].get('kind') == 'ReturnStmt' and strip(top[-1]['inner'][0], casts=True).get('value') == '0' \
+            and not any(cfront.is_assign(x) for x in cfront.walk(cfront.body(f)))
 
     # ---- functions
     def call(self, name, args):
